@@ -10,6 +10,7 @@ inputs with buffer stealing switched on."""
 import glob, json, os, struct
 from vlib import *
 import seqlib as pl
+import planlib as plb
 
 MODULES = ["JxlModel.Props.C05", "JxlModel.Props.C05Region"]
 CORPUS = os.path.join(VERIF, "corpus", "c05")
@@ -188,7 +189,9 @@ def run_cases(ctx, cases, label):
         for (name, _, order) in orders:
             ctx.count("requests:" + name, len(order))
         expect = next((t[7:] for t in tags if t.startswith("expect:")), None)
-        good = check_case(ctx, tag, plan, hexs, comp, spec_out[2 * n], spec_out[2 * n + 1], lazy_order, runs, expect, img.get("orient", 1))
+        # the Impl layer of the model has no patches: its comparison with the Spec is for patch-free images
+        lazy_ans = None if any(f.get("patches") for f in fr) else spec_out[2 * n + 1]
+        good = check_case(ctx, tag, plan, hexs, comp, spec_out[2 * n], lazy_ans, lazy_order, runs, expect, img.get("orient", 1))
         if good and len(ctx.cov["samples"]) < 4 and len(plan) < 900:
             ctx.sample({"kind": tag, "plan": plan, "orders": [o[2] for o in orders]})
 
@@ -265,6 +268,102 @@ def fixed_cases():
             blend={"mode": 1, "source": 2}, ecblend=[{"mode": 4, "clamp": True, "source": 2}, {"mode": 1, "source": 0}])
     out.append(("fixed:premultiplied-two-alphas", img2, [g0, g1, g2], ["fixed"]))
     return out
+
+
+def gen_patch_image(rng, hostile=False):
+    """an image whose last frames carry patch dictionaries: 1..3 reference-only frames (any size, also larger
+    than the canvas, several of the same geometry in different slots) saved before the colour transform, an
+    optional regular base frame, then 1..2 regular frames with 1..3 patches of 1..4 targets each (all eight patch
+    blend modes, clamp, alpha channel choice, targets partly or wholly outside the frame)"""
+    w, h = rng.randint(5, 22), rng.randint(4, 18)
+    gray = rng.random() < 0.3
+    nalpha = rng.choice([0, 1, 1, 2])
+    bits = rng.choice([8, 8, 10, 12])
+    ecs = [{"ty": 0, "dim_shift": 0, "bits": bits, "alpha_assoc": rng.random() < 0.4} for _ in range(nalpha)]
+    if rng.random() < 0.2:
+        ecs.insert(rng.randint(0, len(ecs)), {"ty": 1, "dim_shift": 0, "bits": bits, "alpha_assoc": False})
+    alpha_idx = [i for i, e in enumerate(ecs) if e["ty"] == 0]
+    img = {"w": w, "h": h, "bits": bits, "gray": gray, "buf16": rng.random() < 0.6, "ecs": ecs, "orient": 1, "anim": None}
+    nch = (1 if gray else 3) + len(ecs)
+    hi = (1 << bits) - 1
+
+    def chans(fw, fh):
+        return [(fw, fh, plb.gen_pixels(rng, fw, fh, 0, hi)) for _ in range(nch)]
+    frames, refs = [], {}
+    same = None
+    for i in range(rng.randint(1, 3)):
+        if same and rng.random() < 0.5:
+            rw, rh = same                                   # the same geometry in another slot
+        else:
+            rw, rh = rng.randint(1, w + 6), rng.randint(1, h + 6)
+            same = (rw, rh)
+        slot = rng.choice([s for s in range(1, 4) if s not in refs] or [1, 2, 3])
+        refs[slot] = (rw, rh)
+        frames.append({"ty": 2, "gshift": rng.randrange(4), "have_crop": True, "w": rw, "h": rh, "is_last": False,
+                       "save_ref": slot, "sbct": True, "chans": chans(rw, rh), "tr": [], "pals": [],
+                       "tree": plb.gen_tree(rng, rng.choice([0, 1]), rng.randint(1, 3), (0, hi), nprev=0), "wp": None})
+    if rng.random() < 0.5:
+        frames.append({"ty": 0, "gshift": 1, "is_last": False, "save_ref": 0, "blend": {"mode": 0}, "ecblend": [{"mode": 0}] * len(ecs),
+                       "chans": chans(w, h), "tr": [], "pals": [], "tree": ("L", 0, 0, 0, 1), "wp": None})
+    modes_all = [0, 1, 2, 3] + ([4, 5, 6, 7] if alpha_idx else [])
+    if hostile:
+        modes_all = [4, 5, 6, 7]
+    n_last = rng.randint(1, 2)
+    for k in range(n_last):
+        last = k == n_last - 1
+        fw, fh, crop = w, h, {}
+        if rng.random() < 0.4:
+            fw, fh = rng.randint(1, w + 2), rng.randint(1, h + 2)
+            crop = {"have_crop": True, "w": fw, "h": fh, "x0": rng.randint(-2, w - 1), "y0": rng.randint(-2, h - 1)}
+            if crop["x0"] + fw <= 0:
+                crop["x0"] = 1 - fw
+            if crop["y0"] + fh <= 0:
+                crop["y0"] = 1 - fh
+        while fw * fh < 16:                                 # at most width*height/16 patches per frame (a profile limit)
+            fw, fh = fw + 1, fh + 1
+            crop.update({"w": fw, "h": fh})
+        maxp = fw * fh // 16
+        patches, ntargets = [], 0
+        for _ in range(min(maxp, rng.randint(1, 3))):
+            slot = rng.choice(sorted(refs))
+            rw, rh = refs[slot]
+            pw, ph = rng.randint(1, rw), rng.randint(1, rh)
+            x0, y0 = rng.randint(0, rw - pw), rng.randint(0, rh - ph)
+            targets = []
+            for _t in range(rng.randint(1, min(4, 4 * maxp - ntargets))):
+                ntargets += 1
+                blend = []
+                for _c in range(1 + len(ecs)):
+                    m = rng.choice(modes_all)
+                    a = rng.choice(alpha_idx) if alpha_idx else 0
+                    if len(alpha_idx) < 2 or m < 4:
+                        a = alpha_idx[0] if alpha_idx else 0       # not coded: the first alpha channel
+                    blend.append((m, a, rng.random() < 0.4 if m >= 3 else False))
+                # the first position is coded unsigned
+                tx = rng.randint(0, fw) if not targets else rng.randint(-pw, fw)
+                ty = rng.randint(0, fh) if not targets else rng.randint(-ph, fh)
+                targets.append({"x": tx, "y": ty, "blend": blend})
+            patches.append({"ref": slot, "x0": x0, "y0": y0, "w": pw, "h": ph, "targets": targets})
+        f = {"ty": 0, "gshift": 1, "is_last": last, "chans": chans(fw, fh), "tr": [], "pals": [], "tree": ("L", 0, 0, 0, 1),
+             "wp": None, "patches": patches,
+             "blend": {"mode": rng.choice([0, 0, 1, 2] if alpha_idx else [0, 0, 1]), "alpha": alpha_idx[0] if alpha_idx else 0,
+                       "clamp": False, "source": 0},
+             "ecblend": [{"mode": rng.choice([0, 1]), "alpha": alpha_idx[0] if alpha_idx else 0, "source": 0} for _ in ecs]}
+        f.update(crop)
+        if not last:
+            f["save_ref"] = 0
+        frames.append(f)
+    tags = ["patches", f"patches:alpha-channels-{len(alpha_idx)}"]
+    if len(set(refs.values())) < len(refs):
+        tags.append("patches:two-slots-same-geometry")
+    if any(len(p["targets"]) >= 3 for f in frames for p in f.get("patches", [])):
+        tags.append("patches:three-or-more-targets")
+    for f in frames:
+        for p in f.get("patches", []):
+            for t in p["targets"]:
+                for (m, _, c) in t["blend"]:
+                    tags.append(f"patch-mode-e2e:{m}")
+    return img, frames, sorted(set(tags))
 
 
 def patch_kernels(ctx):
@@ -354,14 +453,33 @@ def run(ctx):
         gen.append(("generated", img, fr, tags))
     for lo in range(0, len(gen), 500):
         run_cases(ctx, gen[lo:lo + 500], "generated")
+    # frames with patch dictionaries (reference-only sources), composed by Px.keyframesP
+    pgen = [("patches",) + gen_patch_image(ctx.rng) for _ in range(150 if ctx.quick else 3000)]
+    run_cases(ctx, pgen, "patches")
+    # the patch-aware fold is the plain one on patch-free images (tie of keyframesP to keyframes)
+    free = gen[: (60 if ctx.quick else 600)]
+    plans = [pl.plan_line(img, fr) for (_, img, fr, _) in free]
+    encs = run_lines_robust([MODEL_EXE, "enc"], plans, per_line_timeout=60)
+    lines = []
+    for (_, img, fr, _), e in zip(free, encs):
+        r = pl.parse_enc_output(e) if e and e.startswith("ok") else None
+        if r:
+            lines.append(pl.comp_line(img, fr, [f["chans"] for f in r[1]]))
+    a = run_lines_robust([MODEL_EXE, "c05"], lines, per_line_timeout=120)
+    b = run_lines_robust([MODEL_EXE, "c05"], ["compp" + l[4:] for l in lines], per_line_timeout=120)
+    for l, x, y in zip(lines, a, b):
+        ctx.count("model:keyframesP-vs-keyframes")
+        if x != y or not (x or "").startswith("ok"):
+            ctx.failed_obligations.append(f"model: Px.keyframesP differs from Px.keyframes on a patch-free image: {l[:200]}")
+            break
     ctx.assumptions += [
         "frame contents are known independently of the decoder: they are the planned samples of the Lean reference "
         "encoder (C03 ties decoded = planned); the expected keyframes are computed from them by Spec.run at Float32",
         "bit-for-bit comparison relies on both sides performing the same IEEE-754 binary32 operations in the same order "
         "(no fused multiply-add on either side); the 1e-6 fallback is counted under 'tolerance-fallback-used' and listed in notes",
         "not generated: VarDCT frames as layers, XYB images (colour transform before/after saving is an opaque hook in the "
-        "model), upsampled frames, patches (their arithmetic is the same Kernel.apply with the swapped flag; the patch "
-        "dictionary cannot be emitted by the encoder), LF frames, float samples; orientation is applied to the Spec canvas "
+        "model), upsampled frames, LF frames; patches are generated from reference-only sources only (what encoders write), "
+        "their rectangle inside the source frame, float samples; orientation is applied to the Spec canvas "
         "by the check (planlib.orient_plane, the index map of FrameBuffer::from_grids), not by the Lean model",
         "reference-only frames smaller than the canvas are generated but never read as a blend source (libjxl rejects "
         "such streams; jxl-oxide's behaviour there is outside this property)",
